@@ -624,8 +624,10 @@ def gen_plan(family, seed, msgs, tier='quick', index=None):
         cm = rng.choice([1, 2, 8])
         # the same program with other data contents (data twins: other replication factors, bitmap
         # arrangements, values; the compressed variant): executed through the template compiled for m
-        sibs = [x for x in msgs if m.get('twin') and x.get('twin') == m['twin'] and x['ref'] != m['ref'] and
-                m['twin'][0] in 'dz']
+        # ... and the other kinds of twins: the same descriptor list under another table version / local table
+        # (collision twins), the same top-level ids with other members inside a replication (nest twins), the
+        # companions of a sequence: one compiling coder meets them one after the other while the first is cached
+        sibs = [x for x in msgs if m.get('twin') and x.get('twin') == m['twin'] and x['ref'] != m['ref']]
         rng.shuffle(sibs)
         group = [m] + sibs[:3]
 
